@@ -2,7 +2,7 @@
 # usage: tools/sweep.sh <seed> [tier]  - runs every registered check once, prints one line per check
 seed=$1; tier=${2:-quick}
 cd "$(dirname "$0")/.." || exit 2
-for id in C01 C02 C03 C04 C05 C06 C08 C10 C11 C12 C13 C14 C15 C16 C17 C18 C19 C20; do
+for id in C01 C02 C03 C04 C05 C06 C07 C08 C09 C10 C11 C12 C13 C14 C15 C16 C17 C18 C19 C20; do
   s=$(date +%s)
   out=$(VERIF_SEED=$seed ./check $id --tier $tier 2>&1 | grep -v 'Warning\|"""\|KNOWN' | tail -2 | cut -c1-220)
   rc=$?
